@@ -149,13 +149,115 @@ impl Tabs {
             pos += 8 + len;
         }
     }
+    /// every entry also goes into the run-wide accumulator that is compared with the concrete
+    /// codec model (Wal/Codec.v) at the end of the run
     fn term(&self) -> String {
+        CODEC_ACC.with(|a| {
+            let mut a = a.borrow_mut();
+            for (t, b) in &self.enc {
+                a.enc.insert((t.clone(), b.clone()));
+            }
+            for (b, t) in &self.dec {
+                a.dec.insert((b.clone(), t.clone()));
+            }
+            for b in &self.crc {
+                a.crc.insert(b.clone());
+            }
+        });
         format!(
             "(mkTabs {} {} {})",
             coq::list(self.enc.iter().map(|(t, b)| format!("({}, {}, {})", t, bts(b), crc32fast::hash(b)))),
             coq::list(self.dec.iter().map(|(b, t)| format!("({}, {})", bts(b), t))),
             coq::list(self.crc.iter().map(|b| format!("({}, {})", bts(b), crc32fast::hash(b))))
         )
+    }
+}
+
+#[derive(Default)]
+struct CodecAcc {
+    enc: std::collections::BTreeSet<(String, Vec<u8>)>,
+    dec: std::collections::BTreeSet<(Vec<u8>, String)>,
+    crc: std::collections::BTreeSet<Vec<u8>>,
+}
+thread_local! {
+    static CODEC_ACC: std::cell::RefCell<CodecAcc> = std::cell::RefCell::new(CodecAcc::default());
+}
+/// the accumulated table entries against the concrete codecs, a few dozen per case
+fn emit_codec_tabs(out: &mut Out) {
+    let acc = CODEC_ACC.with(|a| std::mem::take(&mut *a.borrow_mut()));
+    let enc: Vec<(String, Vec<u8>)> = acc.enc.into_iter().collect();
+    let dec: Vec<(Vec<u8>, String)> = acc.dec.into_iter().collect();
+    let crc: Vec<Vec<u8>> = acc.crc.into_iter().collect();
+    let mut emit = |t: Tabs, what: &str| {
+        let n = t.enc.len() + t.dec.len() + t.crc.len();
+        let tt = format!(
+            "(mkTabs {} {} {})",
+            coq::list(t.enc.iter().map(|(t, b)| format!("({}, {}, {})", t, bts(b), crc32fast::hash(b)))),
+            coq::list(t.dec.iter().map(|(b, t)| format!("({}, {})", bts(b), t))),
+            coq::list(t.crc.iter().map(|b| format!("({}, {})", bts(b), crc32fast::hash(b))))
+        );
+        out.emit(&Case {
+            kind: "codec_tabs".into(),
+            input: format!("{} {} table entries of this run (real bincode bytes / decodings / crc32fast values)", n, what),
+            coq: Some(format!("chk_tabs {}", tt)),
+            imp: format!("first: {}", t.enc.first().map(|e| format!("{} -> {:02x?}", e.0, e.1)).or_else(|| t.crc.first().map(|b| format!("crc32({:02x?}) = {}", b, crc32fast::hash(b)))).unwrap_or_default()),
+            oracle: Oracle::Na,
+            nontrivial: true,
+            tags: vec![format!("codec:{}", what)],
+            ..Default::default()
+        });
+    };
+    for ch in enc.chunks(40) {
+        emit(Tabs { enc: ch.to_vec(), ..Default::default() }, "encode");
+    }
+    for ch in dec.chunks(40) {
+        emit(Tabs { dec: ch.to_vec(), ..Default::default() }, "decode");
+    }
+    for ch in crc.chunks(60) {
+        emit(Tabs { crc: ch.to_vec(), ..Default::default() }, "crc");
+    }
+}
+/// damaged record payloads straight into the decoder: real `decode_from_slice` against `dec_record_slice`
+fn cases_codec_rec(r: &mut Rng, out: &mut Out, n: usize) {
+    for i in 0..n {
+        let mut tags = vec![];
+        let rec = gen_record(r, &mut tags);
+        let good = enc_rec(&rec);
+        let (bytes, what): (Vec<u8>, &str) = match i % 8 {
+            0 => (good.clone(), "intact"),
+            1 => (good[..r.below(good.len() as u64 + 1) as usize].to_vec(), "truncated"),
+            2 | 3 => (flip(&good, r.below(good.len() as u64) as usize, r.below(8) as u32), "bitflip"),
+            4 => {
+                let mut v = good.clone();
+                v.extend((0..1 + r.below(3)).map(|_| r.next() as u8));
+                (v, "trailing")
+            }
+            5 => {
+                let mut v = good.clone();
+                let p = r.below(v.len() as u64) as usize;
+                v[p] = *r.pick(&[0u8, 1, 250, 251, 252, 253, 254, 255, 0x80, 0xc0]);
+                (v, "byte-set")
+            }
+            6 => {
+                // a non-minimal integer form in front (accepted by bincode)
+                let mut v = vec![251u8, good[0], 0];
+                v.extend(&good[1..]);
+                (v, "non-minimal-tag")
+            }
+            _ => ((0..r.below(12)).map(|_| if r.chance(1, 2) { r.below(12) as u8 } else { r.next() as u8 }).collect(), "random"),
+        };
+        let d = dec_rec(&bytes);
+        out.emit(&Case {
+            kind: "codec_rec".into(),
+            input: format!("{} payload of {} = {:02x?}", what, rec_short(&rec), bytes),
+            coq: Some(format!("chk_dec {} {}", bts(&bytes), match &d { Some(x) => format!("(Some {})", rec_term(x)), None => "None".into() })),
+            show: Some(format!("show_dec {}", bts(&bytes))),
+            imp: match &d { Some(x) => rec_short(x), None => "DecodeError".into() },
+            oracle: Oracle::Na,
+            nontrivial: true,
+            tags: vec![format!("payload:{}", what), if d.is_some() { "decodes".into() } else { "rejected".to_string() }],
+            ..Default::default()
+        });
     }
 }
 
@@ -453,6 +555,12 @@ fn meta_term_of_bytes(b: Option<&[u8]>) -> String {
         },
     }
 }
+fn meta_bytes_term(b: Option<&[u8]>) -> String {
+    match b {
+        None => "None".into(),
+        Some(b) => format!("(Some {})", bts(b)),
+    }
+}
 fn read_meta(wal: &Path) -> Option<Vec<u8>> {
     std::fs::read(wal.join("checkpoint.meta")).ok()
 }
@@ -662,7 +770,7 @@ fn case_wal(prop: &str, sc: &mut Scratch, mode: Mode, max: u64, ops: &[WOp], mut
     let vis_t = coq::list(run.vis.iter().map(|v| zz_term(v)));
     let meta_t = meta_term_of_bytes(run.meta.as_deref());
     let coqt = format!(
-        "chk_wal {} {} {} {} {} {} {} {}",
+        "chk_wal {} {} {} {} {} {} {} {} && chk_meta {} {}",
         tt,
         cfg,
         ops_t,
@@ -670,7 +778,9 @@ fn case_wal(prop: &str, sc: &mut Scratch, mode: Mode, max: u64, ops: &[WOp], mut
         files_term(&run.files),
         meta_t,
         coq::b(run.tmp),
-        rrecs_term(&run.rec)
+        rrecs_term(&run.rec),
+        meta_bytes_term(run.meta.as_deref()),
+        meta_t
     );
     let rotated = run.files.iter().any(|(s, _)| *s > 0);
     tags.push(mode.tag());
@@ -779,7 +889,7 @@ fn case_image(sc: &mut Scratch, base_tabs: &Tabs, orig: &[(u64, Vec<u8>)], img: 
     let mut c = Case {
         kind: "recover_img".into(),
         input: format!("{} files={:?} meta={}", img.what, img.files.iter().map(|(s, b)| (*s, b.len())).collect::<Vec<_>>(), meta_t),
-        coq: Some(format!("chk_img {} {} {} {} {} {}", tt, ft, meta_t, coq::b(img.tmp), rrecs_term(&rec), open_term(&opn))),
+        coq: Some(format!("chk_img {} {} {} {} {} {} && chk_meta {} {}", tt, ft, meta_t, coq::b(img.tmp), rrecs_term(&rec), open_term(&opn), meta_bytes_term(img.meta.as_deref()), meta_t)),
         show: Some(format!("show_img {} {} {}", tt, ft, meta_t)),
         imp: format!(
             "recover={} open={}",
@@ -1711,7 +1821,9 @@ fn case_snap(sc: &mut Scratch, ops: &[Op], mut tags: Vec<String>) -> (Case, Vec<
         kind: "snap".into(),
         input: format!("[{}]", ops.iter().map(op_short).collect::<Vec<_>>().join("; ")),
         coq: Some(format!(
-            "chk_snap {} {} {} {} {} {} {} {} {}",
+            "chk_export_bytes {} {} && chk_snap {} {} {} {} {} {} {} {} {}",
+            snap_term(&sn),
+            bts(&b1),
             t.term(),
             cfg_term(Mode::Batch { maxr: 1000, delay0: false }, ENGINE_MAX),
             ops_t,
@@ -1759,7 +1871,7 @@ fn case_import(bytes: &[u8], what: &str, tags: Vec<String>, valid_len: usize) ->
     let mut c = Case {
         kind: "snap_bytes".into(),
         input: format!("{} ({} bytes)", what, bytes.len()),
-        coq: Some(format!("chk_import {} {}", dt, copy_term(&obs))),
+        coq: Some(format!("chk_import_bytes {} {} {}", bts(bytes), dt, copy_term(&obs))),
         imp: copy_short(&obs),
         nontrivial: true,
         tags,
@@ -1772,7 +1884,8 @@ fn case_import(bytes: &[u8], what: &str, tags: Vec<String>, valid_len: usize) ->
             if let Some((sn, _)) = d {
                 if sn.nodes.iter().any(|n| n.id.as_u64() == u64::MAX) || sn.edges.iter().any(|e| e.id.as_u64() == u64::MAX) {
                     c.kid = Some("C07-K3".into());
-                    c.kcoq = Some(format!("k07_3 {}", snap_term(sn)));
+                    c.kcoq = Some(format!("kc07_3 {}", bts(bytes)));
+                    let _ = sn;
                 }
             }
         }
@@ -1780,7 +1893,7 @@ fn case_import(bytes: &[u8], what: &str, tags: Vec<String>, valid_len: usize) ->
             c.oracle = Oracle::Fail;
             c.msg = format!("import accepts {} bytes of which only {} are a snapshot", bytes.len(), n);
             c.kid = Some("C07-K2".into());
-            c.kcoq = Some(format!("k07_2 {} ({})%nat", bts(bytes), n));
+            c.kcoq = Some(format!("kc07_2 {}", bts(bytes)));
         }
         (CopyObs::Ok(..), None) => {
             c.oracle = Oracle::Fail;
@@ -2049,5 +2162,10 @@ fn main() {
             }
         }
     }
+    if prop != "C07" {
+        let mut r = rng.fork();
+        cases_codec_rec(&mut r, &mut out, if thorough { a.cases * 2 } else { a.cases / 2 + 64 });
+    }
+    emit_codec_tabs(&mut out);
     out.finish();
 }
